@@ -195,17 +195,18 @@ struct Prog {
         c0 = alloc::counters();
         ses.reenter();
         TreeGen tg(r, kg);
-        switch (family % 6) {
+        switch (family % 7) {
             case 0: random_ops(nops); break;
             case 1: fill_then_drain(tg.keys_for(1)); break;
             case 2: fill_then_drain(tg.keys_for(2)); break;
             case 3: {
-                tg.build(ses.tok, storage, model, static_cast<int>(r.below(7)));
+                tg.build(ses.tok, storage, model, static_cast<int>(r.below(8)));
                 checkpoint();
                 random_ops(nops / 2);
                 break;
             }
             case 4: fill_then_drain(tg.keys_for(3)); break;
+            case 5: fill_then_drain(tg.keys_for(7)); break; // prefix-related keys in one layer, up to several interior levels
             default: {
                 // very deep key: hundreds of layers, created and torn down again
                 std::string deep(r.range(64, 800), static_cast<char>(kg.abyte()));
@@ -229,7 +230,7 @@ struct Prog {
         if (prog_id < 3) {
             std::vector<std::string> t;
             for (std::size_t i = 0; i < trace.size() && i < 8; ++i) { t.push_back(jesc(trace[i])); }
-            rep.sample(JObj().num("program", prog_id).str("family", std::to_string(family % 6)).num("ops", ops).raw("first_ops", jarr(t)).done());
+            rep.sample(JObj().num("program", prog_id).str("family", std::to_string(family % 7)).num("ops", ops).raw("first_ops", jarr(t)).done());
         }
         status ds = yk::delete_storage(storage);
         if (ds != status::OK) { rep.violation("map:delete-storage", "delete_storage failed", JObj().str("got", st(ds)).done()); }
@@ -243,7 +244,7 @@ int run_map(const Args& a) {
     uint64_t programs = a.num("programs", 200);
     uint64_t nops = a.num("ops", 300);
     Report rep(a.str("prop", "C02"), "seq_map", seed);
-    rep.set_rule("PRNG operation programs (put/unique-put/get/remove, 6 families: random mix, dense fill+drain in 4 orders, "
+    rep.set_rule("PRNG operation programs (put/unique-put/get/remove, 7 families: random mix, dense fill+drain in 4 orders, prefix-related variable-length keys fill+drain (interior splits with prefix pivots), "
                  "multi-layer fill+drain, prebuilt tree + mix, link-only fill+drain, deep trie) compared call-by-call with std::map; "
                  "coherence oracle (walker, full scan, backward cursor, point lookups) at every checkpoint. "
                  "distinct_nontrivial = distinct tree-shape signatures with >=1 interior level or >=2 trie layers seen at checkpoints");
